@@ -235,13 +235,42 @@ SHIFT_Z = [1, -1, 2]                         # LinSolve!ShiftZ
 UNITS_KA, UNITS_KB, UNITS_KS = 60, 60, 40
 
 
+def nat_from_pieces(A, covar, x, pieces):
+    """LinSolve!NatScale: scale_j = sum_k |M^-1|_jk ((|A|^T W |b|)_k + (|M||x|)_k), scale_i = sum_j |A_ij| scale_j, from
+    TLC's exact M^-1 (covar), x (acoeff), |M| (pieces.g) and |A|^T W |b| (pieces.ar), in exact fractions."""
+    M = len(x)
+    rhs = [pieces['ar'][k] + sum(pieces['g'][k][l] * abs(x[l]) for l in range(M)) for k in range(M)]
+    sx = [sum(abs(covar[j][k]) * rhs[k] for k in range(M)) for j in range(M)]
+    return sx, [sum(abs(row[j]) * sx[j] for j in range(M)) for row in A]
+
+
+def base_expected(c, exp):
+    """TLC's exact record of the enumerated system as floats (each the correctly rounded exact value), with the exact
+    natural scales (LinSolve!NatScale, evaluated in exact fractions from TLC's pieces) of the system and of the
+    model-shift right-hand side A.z; computed once per case and cached in exp."""
+    if '_base' not in exp:
+        A = c['A']
+        M = len(A[0])
+        x = [fr(q) for q in exp['acoeff']]
+        cov = [[fr(q) for q in row] for row in exp['covar']]
+        sx, sy = nat_from_pieces(A, cov, x, exp['nat'])
+        zx, zy = nat_from_pieces(A, cov, [Fraction(SHIFT_Z[j]) for j in range(M)], exp['natz'])
+        f = float
+        exp['_base'] = {'acoeff': [f(v) for v in x], 'yfit': [f(fr(q)) for q in exp['yfit']], 'chi2': f(fr(exp['chi2'])),
+                        'dof': exp['dof'], 'covar': [[f(v) for v in row] for row in cov],
+                        'var': [f(fr(q)) for q in exp['var']], 'sx': [f(v) for v in sx], 'sy': [f(v) for v in sy],
+                        'zx': [f(v) for v in zx], 'zy': [f(v) for v in zy]}
+    return exp['_base']
+
+
 def transform(c, exp, variant):
-    """(A, b, s, expected record as Fractions) of a variant of the enumerated system; the expected values are
-    TLC's, rescaled / shifted as the laws HomogeneousInA/B/S and ModelShift (TLC-checked) prescribe."""
+    """(A, b, s, expected record) of a variant of the enumerated system; the expected values are TLC's, rescaled /
+    shifted as the laws HomogeneousInA/B/S, ModelShift and ScaleHomogeneous (TLC-checked) prescribe.  The rescaling
+    is by powers of two, exact in binary floating point."""
     A, b, s = c['A'], c['b'], c['s']
-    e = {'acoeff': [fr(q) for q in exp['acoeff']], 'yfit': [fr(q) for q in exp['yfit']], 'chi2': fr(exp['chi2']),
-         'dof': exp['dof'], 'covar': [[fr(q) for q in row] for row in exp['covar']], 'var': [fr(q) for q in exp['var']],
-         'sx': [fr(q) for q in exp['nat']['x']], 'sy': [fr(q) for q in exp['nat']['y']]}       # TLC's exact natural scales
+    base = base_expected(c, exp)
+    e = {k: (list(v) if isinstance(v, list) else v) for k, v in base.items()}
+    e['covar'] = [list(row) for row in base['covar']]
     if isinstance(variant, (list, tuple)):       # ('units', ka, kb, ks)
         v = {'ka': variant[1], 'kb': variant[2], 'ks': variant[3], 'kz': None}
     else:
@@ -256,17 +285,17 @@ def transform(c, exp, variant):
         e['acoeff'] = [x + zj for x, zj in zip(e['acoeff'], z)]
         e['yfit'] = [y + azi for y, azi in zip(e['yfit'], az)]
         # natural scale of the shifted system: within scale(b) of 2^kz * scale(A.z) (triangle inequality), both TLC's
-        e['sx'] = [x + fr(q) * 2 ** v['kz'] for x, q in zip(e['sx'], exp['natz']['x'])]
-        e['sy'] = [y + fr(q) * 2 ** v['kz'] for y, q in zip(e['sy'], exp['natz']['y'])]
-    fa, fb, fs = Fraction(2) ** v['ka'], Fraction(2) ** v['kb'], Fraction(2) ** v['ks']
+        e['sx'] = [x + q * 2.0 ** v['kz'] for x, q in zip(e['sx'], e['zx'])]
+        e['sy'] = [y + q * 2.0 ** v['kz'] for y, q in zip(e['sy'], e['zy'])]
+    fa, fb, fs = 2.0 ** v['ka'], 2.0 ** v['kb'], 2.0 ** v['ks']
     if min(v['ka'], v['kb'], v['ks']) >= 0:
         A2 = [[int(fa) * x for x in row] for row in A]
         b2 = [int(fb) * x for x in b]
         s2 = [int(fs) * x for x in s]
     else:                                        # powers of two times small integers: exact in binary floating point
-        A2 = [[float(x) * 2.0 ** v['ka'] for x in row] for row in A]
-        b2 = [float(x) * 2.0 ** v['kb'] for x in b]
-        s2 = [float(x) * 2.0 ** v['ks'] for x in s]
+        A2 = [[float(x) * fa for x in row] for row in A]
+        b2 = [float(x) * fb for x in b]
+        s2 = [float(x) * fs for x in s]
     e['acoeff'] = [x * fb / fa for x in e['acoeff']]
     e['yfit'] = [y * fb for y in e['yfit']]
     e['sx'] = [x * fb / fa for x in e['sx']]          # LinSolve!ScaleHomogeneous
@@ -327,7 +356,7 @@ def check_wls(ctx, rep, c, exp, variant, order, layout=None):
                          {k: obs.get(k) for k in ('acoeff', 'chi2', 'dof', 'exc')}),
              'kind': 'wls', 'call': {k: c[k] for k in ('A', 'b', 's', 'conv')}, 'variant': variant, 'order': order,
              'layout': layout,
-             'expected': exp},
+             'expected': {k: v for k, v in exp.items() if k != '_base'}},
             finding=finding)
     return obs, bad
 
@@ -987,17 +1016,19 @@ def record_wls(rng):
 
 
 def measured_nat_scale(A, b, s):
-    """The natural scales of LinSolve!NatScale measured in floating point (TLC checks them against the exact ones)."""
+    """The natural scales of LinSolve!NatScale measured in floating point (recorded direction)."""
     Aa, ba, w = np.array(A, dtype=float), np.array(b, dtype=float), np.array(s, dtype=float) ** 2
     G = Aa.T @ (Aa * w[:, None])
-    sx = np.abs(np.linalg.inv(G)) @ (np.abs(Aa).T @ (w * np.abs(ba)))
+    Gi = np.linalg.inv(G)
+    x = Gi @ (Aa.T @ (w * ba))
+    sx = np.abs(Gi) @ (np.abs(Aa).T @ (w * np.abs(ba)) + np.abs(G) @ np.abs(x))
     return sx, np.abs(Aa) @ sx
 
 
 def wls_record(A, b, s, conv, order, layout='plain'):
     obs = run_chi2(A, b, s, conv, order, layout)
     rec = {'kind': 'wls', 'A': A, 'b': b, 's': s, 'conv': conv, 'order': order, 'layout': layout}
-    bad = {'err': True, 'dev': 0, 'natx': [], 'naty': [], 'acoeff': [], 'yfit': [], 'chi2': [0, 1], 'dof': 0, 'covar': [], 'var': []}
+    bad = {'err': True, 'dev': 0, 'acoeff': [], 'yfit': [], 'chi2': [0, 1], 'dof': 0, 'covar': [], 'var': []}
     if obs['err']:
         rec['ret'], rec['exc'] = bad, obs['exc']
         return rec
@@ -1026,8 +1057,6 @@ def wls_record(A, b, s, conv, order, layout='plain'):
     dg = np.sqrt(np.abs(np.diag(cv)))
     ret['covar'] = [[q(cv[j][k], dg[j] * dg[k]) for k in range(cv.shape[1])] for j in range(cv.shape[0])]
     ret['var'] = [q(v, abs(v)) for v in obs['var']]
-    ret['natx'] = [list(small_rational(v)[:2]) for v in sx]
-    ret['naty'] = [list(small_rational(v)[:2]) for v in sy]
     ret['dev'] = int(dev)
     rec['ret'] = ret
     rec['exc'] = ''
@@ -1185,7 +1214,7 @@ def falsify(rec, rng):
     import copy
     r = copy.deepcopy(rec)
     if r['kind'] == 'wls':
-        if r['ret']['err'] or not r['ret']['acoeff'] or not r['ret'].get('natx'):
+        if r['ret']['err'] or not r['ret']['acoeff']:
             return None                          # (skipped: not full rank)
         m = rng.randrange(6)
         if m == 0:
@@ -1309,7 +1338,9 @@ def run(ctx):
         '(32-bit TLC integers bound the instance)',
         'COMPARISON RULE (LinSolve.tla, "THE COMPARISON RULE"): a float agrees with the exact value e iff |obs - e| <= 1e-8 * '
         'max(|e|, natural scale), with the natural scales computed exactly by TLC (NatScale: coefficient j: sum_k |M^-1|_jk '
-        '(|A|^T W |b|)_k, fitted value i: sum_j |A_ij| scale_j; rescaled with the case in the unit / shift variants by '
+        '((|A|^T W |b|)_k + (|M||x|)_k) - the componentwise forward-error scale; the (|M||x|) term is needed because without '
+        'it the scale is exactly 0 where an entry of M^-1 vanishes and the unchanged code, like numpy.linalg.lstsq, returns '
+        '1e-16 there; fitted value i: sum_j |A_ij| scale_j; rescaled with the case in the unit / shift variants by '
         'ScaleHomogeneous); covariance entries relative to sqrt(covar_jj covar_kk), variances to themselves.  EXACT ZEROS ARE '
         'NOT DEMANDED beyond tol x scale (b orthogonal to a column: any backward-stable solver returns round-off there).  '
         'chi2, a sum of squared residuals, is judged relative to itself plus round-off-level multiples of its natural scale '
@@ -1341,7 +1372,7 @@ def run(ctx):
         'twins constructed first, RNG used, solve A, RNG used, solve B; construct A, solve an unrelated HMF, solve A versus '
         'a fresh construct-and-solve - each on data for which an UNSEEDED control pair under the same history differs',
         'code -> spec for (a) abstracts every float to the rational q with denominator <= 10^4; dev = |obs - q| in units of '
-        '1e-9 * max(|q|, natural scale) must be <= 1 and the harness-measured natural scales must equal TLC\'s exact ones; systems are '
+        '1e-9 * max(|q|, natural scale) must be <= 1 (natural scale measured by the harness in floating point there); systems are '
         'drawn so that the exact denominators stay below that bound',
         'HARNESS-EVALUATED numeric relations (level exploration, not model checking): pcomp laws on scaled integers '
         '(1e-5; 1e-4 on squared correlations) and at 1e-9 against TLC\'s exact scatter matrix; HMF chi-square change '
